@@ -46,7 +46,7 @@ AR = [
 
 ASSUMPTIONS = [
     "default resolvers only; custom resolver callbacks are outside the property",
-    "abstract alphabet of 53 citation kinds (real objects extracted once from snippets, shallow-copied per position)",
+    "abstract alphabet of 55 citation kinds (real objects extracted once from snippets, shallow-copied per position)",
     "BFS canonical state = (set of full-citation classes seen, placeholder-page count capped at 2, class of last resolution); "
     "soundness of this abstraction is checked by comparing all one-step futures of two representative histories per state",
 ]
@@ -54,7 +54,7 @@ ASSUMPTIONS = [
 
 def rule(pid):
     return (
-        "seq: every sequence of length <= L over the 53-symbol alphabet (and <= L' over the 20 most interacting symbols) "
+        "seq: every sequence of length <= L over the 55-symbol alphabet (and <= L' over the 20 most interacting symbols) "
         "through the real resolve_citations; bfs: explicit-state search over canonical resolver states to fix-point, every "
         "transition executes the real resolver on representative+[event]; docs: lists extracted by get_citations from all "
         "concatenations of <= k ambiguous-document fragments (all prefixes for C08); pumped: every head of <= 3 core symbols followed by "
@@ -63,7 +63,7 @@ def rule(pid):
     )
 
 
-BFS_DROP_QUICK = ("fullU", "fullC3", "fullA0", "fullA3", "fullA4", "lawR1", "lawR2", "jour2", "lawU1", "lawU2", "fullM1", "fullM2", "fullM3", "idEdgeIn", "fullA5", "fullBrown", "supraBros", "fullM4", "fullMac", "supraMacArthur", "fullM5", "fullFoo2", "supraFooVol", "fullDoeS", "fullDze", "refDze")  # structurally covered by fullP/fullQ and fullC in the sequence parts
+BFS_DROP_QUICK = ("fullU", "fullC3", "fullA0", "fullA3", "fullA4", "lawR1", "lawR2", "jour2", "lawU1", "lawU2", "fullM1", "fullM2", "fullM3", "idEdgeIn", "fullA5", "fullBrown", "supraBros", "fullJ2", "supraJones", "fullM4", "fullMac", "supraMacArthur", "fullM5", "fullFoo2", "supraFooVol", "fullDoeS", "fullDze", "refDze")  # structurally covered by fullP/fullQ and fullC in the sequence parts
 G = {}
 
 
@@ -100,6 +100,9 @@ def shards(tier, seed):
     for a in range(m):
         for b in range(m):
             out.append({"part": "seq-core", "alpha": "core", "prefix": [a, b], "L": L_CORE[tier], "minlen": L_FULL[tier] + 1})
+    for a in range(len(R.DEEP7)):
+        for b in range(len(R.DEEP7)):
+            out.append({"part": "seq-deep", "alpha": "deep", "prefix": [a, b], "L": 6, "minlen": 5})
     if tier == "thorough":
         mid = R.MID32
         for a in range(len(mid)):
@@ -242,8 +245,8 @@ def run_shard(sh, pid):
             st.extra["bfs_canon_unsound"] = len(unsound)
             st.extra["harness_errors"] = [f"canonical state abstraction unsound: {unsound[:2]!r}"]
         return st
-    if sh["part"] in ("seq", "seq-core", "seq-mid"):
-        names = R.NAMES if sh["alpha"] == "full" else (R.MID32 if sh["alpha"] == "mid" else R.CORE12)
+    if sh["part"] in ("seq", "seq-core", "seq-mid", "seq-deep"):
+        names = R.NAMES if sh["alpha"] == "full" else (R.MID32 if sh["alpha"] == "mid" else (R.DEEP7 if sh["alpha"] == "deep" else R.CORE12))
         prefix = [names[i] for i in sh["prefix"]]
         L = sh["L"]
         minlen = sh.get("minlen", 0)
